@@ -139,3 +139,15 @@ pub struct Message {
     pub(crate) header: MessageHeader,
     pub(crate) body: MessageBody,
 }
+
+#[cfg(feature = "verif-hooks")]
+impl crate::verif_hooks::Digest for ConnectionStatus {
+    fn digest(&self, out: &mut Vec<u8>) {
+        let Self {
+            disconnected,
+            last_frame,
+        } = self;
+        disconnected.digest(out);
+        last_frame.digest(out);
+    }
+}
